@@ -40,6 +40,7 @@ def run(idx: Index, rep: Report, tier: str):
     check_encoding_args(idx, rep)
     check_index_placement(idx, rep)
     check_uhf_placement(idx, rep)
+    check_padding_spin_sorts(idx, rep)
     rep.stats.update({"alias_" + k: v for k, v in an.stats.items()})
 
 
@@ -219,3 +220,52 @@ def check_uhf_placement(idx: Index, rep: Report):
     ok = any("pele // 2, qele // 2, rele // 2, sele // 2" in d for d in divs) and any("pele % 2, qele % 2, rele % 2, sele % 2" in d for d in divs)
     rep.decide(ok, rule, f, f.node, text="spatial = p // 2, spin = p % 2", what="spin-orbital p is split into spatial index p//2 and spin label p%2",
                reason=f"index split {divs}")
+
+
+# ---------------------------------------------------------------------------------------------------
+def check_padding_spin_sorts(idx: Index, rep: Report):
+    """Unrestricted padding: the mixed-spin 2-RDM block has alpha orbitals on its first two axes and beta orbitals on the last two (it is
+    allocated as (n_a, n_a, n_b, n_b)).  Every loop variable has the spin of the count it ranges over (`..._a` / `..._b`); in every store into
+    an aa / bb / ab tensor each index variable must sit on an axis of its own spin."""
+    rule = "K10.padding-spin-sorts"
+    f = idx.function(f"{RDMS}::pad_rdms_with_frozen_orbitals_unrestricted")
+
+    def spin_of_bound(e: ast.AST):
+        t = norm(e)
+        if t.endswith("_a") or "_a_" in t or t.endswith("_a)"):
+            return "alpha"
+        if t.endswith("_b") or "_b_" in t or t.endswith("_b)"):
+            return "beta"
+        return None
+
+    def layout_of(arr: str):
+        for tag, lay in (("_aa", ("alpha",) * 4), ("_bb", ("beta",) * 4), ("_ab", ("alpha", "alpha", "beta", "beta"))):
+            if tag in arr:
+                return lay
+        return None
+    n = 0
+    for loop in [x for x in ast.walk(f.node) if isinstance(x, ast.For)]:
+        sorts: Dict[str, Optional[str]] = {}
+        it = loop.iter
+        if isinstance(it, ast.Call) and norm(it.func) == "range" and isinstance(loop.target, ast.Name):
+            sorts[loop.target.id] = spin_of_bound(it.args[-1])
+        elif isinstance(it, ast.Call) and norm(it.func) in ("it.product", "itertools.product") and isinstance(loop.target, ast.Tuple):
+            ranges = [a for a in it.args]
+            rep_kw = next((ast.literal_eval(k.value) for k in it.keywords if k.arg == "repeat"), 1)
+            seq = [spin_of_bound(r.args[-1]) if isinstance(r, ast.Call) and norm(r.func) == "range" else None for r in ranges] * rep_kw
+            for v, sv in zip(loop.target.elts, seq):
+                if isinstance(v, ast.Name):
+                    sorts[v.id] = sv
+        if not any(sorts.values()):
+            continue
+        for st in loop.body:
+            if isinstance(st, (ast.AugAssign, ast.Assign)):
+                tgt = st.target if isinstance(st, ast.AugAssign) else st.targets[0]
+                if isinstance(tgt, ast.Subscript) and isinstance(tgt.value, ast.Name) and layout_of(tgt.value.id) and isinstance(tgt.slice, ast.Tuple) and len(tgt.slice.elts) == 4:
+                    lay = layout_of(tgt.value.id)
+                    bad = [(k, ix.id, sorts[ix.id], lay[k]) for k, ix in enumerate(tgt.slice.elts) if isinstance(ix, ast.Name) and sorts.get(ix.id) and sorts[ix.id] != lay[k]]
+                    n += 1
+                    rep.decide(not bad, rule, f, st, text=f"{norm(tgt)} inside `for {norm(loop.target)} in {norm(loop.iter)[:60]}`",
+                               what="every index variable sits on a tensor axis of the spin it was counted for (the mixed block is alpha, alpha, beta, beta)",
+                               reason="; ".join(f"axis {k} of {tgt.value.id} is {want} but `{v}` ranges over a {got} count" for k, v, got, want in bad))
+    rep.floor("spin-sorted stores in the unrestricted padding", n, 12)
